@@ -80,9 +80,7 @@ func (u *UEPolicyPart) GetPartContent() []uint8 {
 func (u *UEPolicyPart) MarshalBinary() ([]byte, error) {
 	buf := bytes.NewBuffer(nil)
 	// len
-	if u.Len == 0 {
-		_ = u.SetLen_byContent()
-	}
+	_ = u.SetLen_byContent()
 	if err := binary.Write(buf, binary.BigEndian, u.Len); err != nil {
 		return nil, err
 	}
